@@ -156,3 +156,12 @@ def axes_choices(n, ncon, which="all"):
         if list(c) == sorted(c) or list(c) == sorted(c, reverse=True):
             keep.append(c)
     return keep
+
+
+def pair_arrays(sym, charges="two", sparsity="le1", **kw):
+    """2-index arrays whose indices are an index and its conjugate, in both direction orders: the inputs on which
+    eigh / solve / trace / einsum('aa->') apply to the array itself (the per-axis size tables never produce such a pair)"""
+    for rest in index_tuples(sym, 1, "m2", "a"):
+        for first_dual in (True, False):
+            lead = (rest[0][0], first_dual, None)
+            yield from arrays_over(sym, (lead, conj_ixd(lead)), charges, sparsity, **kw)
